@@ -169,6 +169,129 @@ theorem parse_rejects (k v : Str) (hk : ∀ c ∈ k, c ≠ ':') (hv : ∀ c ∈ 
     (h1 : k ≠ typeKw) (h2 : k ≠ tagKw) : parseFilter (k ++ ':' :: v) = .error .systemSetupError := by
   simp [parseFilter, splitColon_append k v hk, splitColon_no_colon v hv, h1, h2]
 
+/-! ### the reader in front of the filter: which type a task has is decided by its own specification and the `operations` block only -/
+
+/-- **plain_reference_to_a_builtin_keeps_its_type** — a task that names an operation by a plain string which is not an entry
+    of the `operations` block runs the built-in operation of that type: name and type are that string, whatever else the
+    track contains. -/
+theorem plain_reference_to_a_builtin_keeps_its_type (ops : List OpDef) (s : Str) (h : ∀ d ∈ ops, d.name ≠ s) :
+    resolveOp ops (.plain s) = ⟨s, s⟩ := by
+  have hl : lookupOp ops s = none := by
+    unfold lookupOp
+    rw [List.find?_eq_none]
+    intro d hd
+    simpa using h d hd
+  simp [resolveOp, hl, parseOperation]
+
+/-- **plain_reference_to_the_block_is_that_entry** — a plain string that names an entry of the block is the first such entry. -/
+theorem plain_reference_to_the_block_is_that_entry (ops : List OpDef) (s : Str) (d : OpDef) (h : lookupOp ops s = some d) :
+    resolveOp ops (.plain s) = d ∧ d.name = s ∧ d ∈ ops := by
+  refine ⟨by simp [resolveOp, h], ?_, ?_⟩
+  · have := List.find?_some h
+    simpa using this
+  · exact List.mem_of_find?_eq_some h
+
+/-- **inline_operation_is_taken_as_written** — an operation defined inline in a schedule has the type it states (and the
+    name it states, by default its type), independently of the table. -/
+theorem inline_operation_is_taken_as_written (ops : List OpDef) (n : Option Str) (ty : Str) :
+    resolveOp ops (.inline n ty) = ⟨n.getD ty, ty⟩ := by
+  cases n <;> rfl
+
+theorem leaves_readSchedule (ops : List OpDef) (es : List ElemSpec) :
+    leaves (readSchedule ops es) = (specLeaves es).map (readTask ops) := by
+  induction es with
+  | nil => rfl
+  | cons e es ih =>
+    cases e with
+    | leaf t => simp only [readSchedule, List.map_cons, readElem, leaves, specLeaves] at ih ⊢; rw [ih]
+    | par ts p => simp only [readSchedule, List.map_cons, readElem, leaves, specLeaves, List.map_append] at ih ⊢; rw [ih]
+
+/-- **reading_carries_nothing_between_tasks_and_challenges** — every task of every challenge is read against the same table,
+    by itself: a readable specification yields, challenge by challenge and task by task, the map of independent readings —
+    what stands earlier in the schedule or in an earlier challenge has no influence on a task. -/
+theorem reading_carries_nothing_between_tasks_and_challenges (ops : List OpDef) (chs : List (List ElemSpec))
+    (out : List (List Elem)) (h : readChallenges ops chs = .ok out) :
+    out = chs.map (readSchedule ops) ∧
+    ∀ c ∈ chs, leaves (readSchedule ops c) = (specLeaves c).map (readTask ops) := by
+  refine ⟨?_, fun c _ => leaves_readSchedule ops c⟩
+  induction chs generalizing out with
+  | nil => simp only [readChallenges, Except.ok.injEq] at h; simp [← h]
+  | cons c cs ih =>
+    unfold readChallenges at h
+    split at h
+    · simp at h
+    · rename_i s hs
+      split at h
+      · simp at h
+      · rename_i ss hss
+        simp only [Except.ok.injEq] at h
+        have hc : s = readSchedule ops c := by
+          simp only [readChallenge] at hs
+          split at hs
+          · simp only [Except.ok.injEq] at hs; exact hs.symm
+          · simp at hs
+        rw [← h, List.map_cons, ← ih ss hss, hc]
+
+/-- **filters_select_by_the_specification** — reading and filtering composed: in every challenge of a readable specification
+    the remaining leaf tasks are exactly the tasks of the specification, each read by itself, that match at least one filter
+    (include) resp. none (exclude), in their order. -/
+theorem filters_select_by_the_specification (block : List OpRef) (chs : List (List ElemSpec)) (exclude : Bool)
+    (fs : List Filter) (hne : fs ≠ []) (out : List (List Elem)) (h : readAndFilter block chs exclude fs = .ok out) :
+    ∃ ops, parseOperations block = .ok ops ∧
+      out.map leaves = chs.map (fun c => ((specLeaves c).map (readTask ops)).filter (fun t => matchesAny fs t != exclude)) := by
+  unfold readAndFilter readTrack at h
+  split at h
+  · simp at h
+  · rename_i ss hss
+    split at hss
+    · simp at hss
+    · rename_i ops hops
+      refine ⟨ops, hops, ?_⟩
+      simp only [Except.ok.injEq] at h
+      have hr := (reading_carries_nothing_between_tasks_and_challenges ops chs ss hss).1
+      rw [← h, hr, List.map_map, List.map_map]
+      apply List.map_congr_left
+      intro c _
+      simp only [Function.comp]
+      rw [leaves_applyFilters exclude fs _ hne, leaves_readSchedule]
+
+/-- **type_filter_is_literal** — a `type:` filter selects a task iff its argument IS the task's operation type (as written in
+    the track): no spelling of a type stands for another one. -/
+theorem type_filter_is_literal (a : Str) (t : Task) : (Filter.opType a).matchesTask t = true ↔ a = t.opType := by
+  simp [Filter.matchesTask]
+
+theorem type_filter_does_not_select_another_spelling (a b : Str) (hab : a ≠ b) (t : Task) (ht : t.opType = b) :
+    matchesAny [Filter.opType a] t = false := by
+  simp [matchesAny, Filter.matchesTask, ht, hab]
+
+/-- **one_string_of_tags_is_one_tag** — `"tags": "setup"` is the one tag `setup`: a `tag:` filter selects the task iff its
+    argument is that string (no substring, no character of it); a list of tags is membership. -/
+theorem one_string_of_tags_is_one_tag (ops : List OpDef) (id : Nat) (n : Option Str) (op : OpRef) (s g : Str) :
+    (Filter.tag g).matchesTask (readTask ops ⟨id, n, op, .one s⟩) = true ↔ g = s := by
+  simp [Filter.matchesTask, readTask, normTags, eq_comm]
+
+theorem list_of_tags_is_membership (ops : List OpDef) (id : Nat) (n : Option Str) (op : OpRef) (l : List Str) (g : Str) :
+    (Filter.tag g).matchesTask (readTask ops ⟨id, n, op, .many l⟩) = true ↔ g ∈ l := by
+  simp [Filter.matchesTask, readTask, normTags]
+
+theorem distinct_nodup (l : List Str) (h : distinct l = true) : l.Nodup := by
+  induction l with
+  | nil => exact List.nodup_nil
+  | cons x xs ih =>
+    simp only [distinct, Bool.and_eq_true, Bool.not_eq_true', List.contains_eq_mem, decide_eq_false_iff_not] at h
+    exact List.nodup_cons.mpr ⟨h.1, ih h.2⟩
+
+/-- **read_challenge_has_distinct_task_names** — the tasks of a challenge the reader accepts carry pairwise different names
+    (what the model of `list.remove` in the filter relies on). -/
+theorem read_challenge_has_distinct_task_names (ops : List OpDef) (es : List ElemSpec) (s : List Elem)
+    (h : readChallenge ops es = .ok s) : ((leaves s).map (·.name)).Nodup := by
+  simp only [readChallenge] at h
+  split at h
+  · rename_i hd
+    simp only [Except.ok.injEq] at h
+    rw [← h]; exact distinct_nodup _ hd
+  · simp at h
+
 /-! ### the filtered track is runnable (via the allocation model of C02) -/
 
 def toAlloc (clients : Task → Nat) : Elem → Alloc.Element
@@ -214,5 +337,18 @@ example : applyFilters true [Filter.name ['a']] [Elem.par [⟨1, ['a'], ['b'], [
 example : applyFilters false [Filter.tag ['q']] [Elem.par [⟨1, ['a'], ['b'], [['q']]⟩, ⟨2, ['c'], ['b'], []⟩] 7, Elem.leaf ⟨3, ['d'], ['x'], []⟩]
     = [Elem.par [⟨1, ['a'], ['b'], [['q']]⟩] 7] := by decide
 example : parseFilter ['t', 'y', 'p', 'e', ':', 'b'] = .ok (.opType ['b']) := by rfl
+
+-- an inline operation named like a built-in type ('h') but of another type ('r'), then — in the same and in a later challenge —
+-- plain references to 'h': they keep type 'h'; `type:h` selects exactly them
+example : readAndFilter [] [[.leaf ⟨1, some ['a'], .inline (some ['h']) ['r'], .absent⟩, .leaf ⟨2, none, .plain ['h'], .absent⟩],
+      [.par [⟨3, some ['b'], .plain ['h'], .absent⟩, ⟨4, none, .inline none ['r'], .absent⟩] 0]] false [Filter.opType ['h']]
+    = .ok [[.leaf ⟨2, ['h'], ['h'], []⟩], [.par [⟨3, ['b'], ['h'], []⟩] 0]] := by rfl
+-- a block entry named 'h' of type 'r' does capture plain references (that is what the block is for)
+example : readAndFilter [.inline (some ['h']) ['r']] [[.leaf ⟨2, none, .plain ['h'], .absent⟩]] false [Filter.opType ['h']] = .ok [[]] := by rfl
+example : readTrack [.plain ['h'], .inline (some ['h']) ['r']] [] = .error .trackSyntaxError := by rfl
+example : readTrack [] [[.leaf ⟨1, none, .plain ['h'], .absent⟩, .leaf ⟨2, none, .inline none ['h'], .absent⟩]] = .error .trackSyntaxError := by rfl
+example : readAndFilter [] [[.leaf ⟨1, none, .plain ['h'], .one ['x', 'x']⟩, .leaf ⟨2, some ['a'], .plain ['h'], .many [['x'], ['y']]⟩]] true [Filter.tag ['x']]
+    = .ok [[.leaf ⟨1, ['h'], ['h'], [['x', 'x']]⟩]] := by rfl
+example : matchesAny [Filter.opType ['n', '_', 's']] ⟨1, ['a'], ['n', '-', 's'], []⟩ = false := by decide
 
 end C11
